@@ -3,6 +3,19 @@ import json, os
 VERIF = os.path.dirname(os.path.dirname(os.path.abspath(__file__)))
 PROOF = "proof"
 CHECKS = {
+ "C13": dict(
+    text="Lean 4 theorems (any ring, any ranks/sizes): L4 bond change — a matrix on a bond may be multiplied into either neighbour — "
+         "so with the kernel contract Q·R = A the factor step, left_orthogonalize and right_orthogonalize leave every tail of the chain, "
+         "hence the tensor, unchanged; the new core's unfolding IS the kernel's Q (orthonormal by the contract QᵀQ = I); lifting to any "
+         "position mu. The model is fed with the QR answers recorded in-process from torch.linalg.qr and reproduces the implementation's "
+         "cores; the contracts are validated numerically on every recorded call; gauge, invariance, norm identity and histories of "
+         "orthogonalisations are checked by Gram-matrix / dense oracles.",
+    note="Trusted: Lean kernel + standard axioms; torch.linalg.qr (contract Q·R=A, QᵀQ=I assumed, validated per run); harness glue; "
+         "sampling. The norm identity ‖T‖ = ‖core_mu ×₂ U_mu‖ (isometry lemma iface_ortho is proved in Lemmas/Chain for the right-"
+         "orthonormal side) is checked numerically, not assembled into a C13 theorem; orthogonalize(mu) as a whole is the composition "
+         "of the proved steps (composition checked by the oracle over histories).",
+    tech="Lean 4 proof modulo the QR kernel contract (L4) + kernel-recording correspondence + Gram/dense oracles",
+    ref="§3 C13"),
  "C07": dict(
     text="Lean 4: Dual R (value, tangent) is a commutative ring, so C02.expr_dense (any expression tree), C03.getitem_tensor and "
          "C06.dot_eq hold verbatim over dual numbers — the compressed and the dense computation agree in the tangent for every "
